@@ -164,6 +164,10 @@ impl Mon {
             _ => {}
         }
     }
+    /// All 256 three-byte inputs that start with these two bytes were run.
+    pub fn tiny3_block(&mut self, prefix: usize) {
+        self.sets.entry("tiny.len3_blocks_of_256_seen").or_default().insert(prefix as u64);
+    }
     pub fn opts_seen(&mut self, ix: u32) {
         self.sets.entry("parse_option_sets_seen").or_default().insert(u64::from(ix));
     }
